@@ -43,6 +43,21 @@ always_run, n_max_attempts, always_copy_output, job_id, absolute_parent_ids, in_
 in_update_job_group_id | absolute_job_group_id, env, timeout, attributes, mount_tokens, regions) runs along the list
 ascending, descending, random, ascending with one transposition, constant, sparse or absent; 15 % of the lists
 contain an exact duplicate of a structured spec.  Observed per field whether its values had a descent.
+
+The SUBMISSION clause ("splits ... into submission bunches"): the bunches of the statement are what the client
+POSTs, and _create_bunches only returns an intermediate list.  Batch._submit (0 / 1 / many bunches), _create_fast /
+_update_fast, _submit_job_group_bunches / _submit_job_bunches, _submit_job_groups / _submit_jobs (filter by SpecType)
+and _submit_spec_bunch (payload) lie between that list and the wire.  The batches of phases 'api' and 'tree' and of
+Phase 'submit' (client API; new batch / update of an existing batch; groups only, jobs only, both, nothing; one bunch
+and many; limits drawn so that the ONE bunch holding the last job groups and the first jobs is the first, a middle or
+the last bunch, or does not exist because the job groups end on a bunch boundary) are sent with the real
+Batch.submit() to a recording client that answers like the service and lets requests in flight overtake each other.
+Oracle on the recorded request bodies alone ('wire/*'): job-group specs concatenated in send order == the job-group
+specs, byte-identical; job specs == the job specs (nothing lost / duplicated / altered), every request a contiguous
+in-order run; every request carrying jobs is sent after every request carrying job groups was answered; every request
+non-empty, count <= max_bunch_size, spec bytes < max_bunch_bytesize, specs on the endpoint of their type, body
+byte-exact; submit() raises only the legitimate oversized-spec refusal.  The arrival order of the concurrently sent
+job requests is not judged (not the client's to decide).
 """
 import copy
 
@@ -58,15 +73,20 @@ RULE = (
     'parents, ~1 % with 1025-2300 groups at the production limits; additionally judged against the monitor\'s own creation log. '
     'phase fields: structured spec lists in which each of 20 client-written fields runs ascending/descending/random/'
     'one-transposition/constant/sparse/absent along the list, 15 % with an exact duplicate spec; same limit choice. '
+    'phase submit (+ the batches of phases api and tree): the real Batch.submit() against a recording client, new batch / update form, '
+    'groups only / jobs only / both / nothing, one bunch (create-fast / update-fast) and many, count-only / byte-only / both limits binding, '
+    'the mixed boundary bunch first / middle / last / absent (max_bunch_size dividing the number of job groups); judged on the recorded request bodies. '
     'Distinct by (number of job-group specs, per-bunch (length, why the bunch was closed: bytes/count/end), refusal; '
     'in tree/fields also the disorder class: update form, parent-id descents, job-group-reference descents, which side has a disordered field); '
     'non-trivial when at least two bunches were produced or the call was refused.'
 )
 ASSUMPTIONS = [
+    'submission clause: the request bodies are read from aiohttp.BytesPayload._value as handed to BatchClient._post; real aiohttp, real hailtop.utils.bounded_gather, real rich progress bar; no network',
     'orjson is the json-backed shim vf/shims/pkgs/orjson (compact separators, UTF-8); the oracle serializes with the same module object the real code uses',
     'the byte limit is exclusive (sum < max_bunch_bytesize), as defined by the real code\'s own per-spec assertion',
 ]
-TRUSTED_BASE = ['vf/shims/pkgs/orjson (json.dumps-backed)', 'oracle in this file']
+TRUSTED_BASE = ['vf/shims/pkgs/orjson (json.dumps-backed)', 'oracle in this file',
+                'RecordingClient in this file (stands for BatchClient._post/_patch; answers ids like the service)']
 SHARDS = {'quick': 1, 'thorough': 16}
 TIMEOUT = {'quick': 600, 'thorough': 3600}
 
@@ -107,6 +127,35 @@ def FLOORS(tier):
         'fields_cases_with_duplicated_spec': 280 * k,
         'fields_disordered_split_over_bunches': 1_400 * k,
         'fields_disordered': 20,      # seen-set: every generated field had a descent along some list
+        # submission clause: the real Batch.submit() against a recording client (phase submit + phases api, tree)
+        'submit_cases': 2_400 * k,
+        'submit_spec_requests': 16_000 * k,
+        'wire_checked_job_groups': 26_000 * k,
+        'wire_checked_jobs': 22_000 * k,
+        'submit_slow_path_cases': 2_000 * k,
+        'submit_slow_path_cases_new_batch': 1_200 * k,
+        'submit_slow_path_cases_update_form': 800 * k,
+        'submit_slow_path_cases_mixed_boundary_bunch': 730 * k,
+        'submit_slow_path_cases_mixed_boundary_bunch_new_batch': 420 * k,
+        'submit_slow_path_cases_mixed_boundary_bunch_update_form': 300 * k,
+        'submit_slow_path_cases_mixed_bunch_is_first': 430 * k,
+        'submit_slow_path_cases_mixed_bunch_in_the_middle': 230 * k,
+        'submit_slow_path_cases_mixed_bunch_is_last': 65 * k,
+        'submit_slow_path_cases_groups_end_on_bunch_boundary': 850 * k,
+        'submit_slow_path_cases_groups_only': 220 * k,
+        'submit_slow_path_cases_jobs_only': 200 * k,
+        'submit_slow_path_cases_more_job_requests_than_gather_slots': 500 * k,
+        'submit_cases_job_requests_in_flight_together': 1_400 * k,
+        'submit_cases_job_requests_answered_out_of_order': 1_100 * k,
+        'submit_fast_path_cases': 160 * k,
+        'submit_fast_path_cases_new_batch': 95 * k,
+        'submit_fast_path_cases_update_form': 65 * k,
+        'submit_fast_path_cases_groups_and_jobs': 75 * k,
+        'submit_zero_spec_cases': 65 * k,
+        'submit_refused_oversized': 65 * k,
+        'submit_requests_count_eq_limit': 6_500 * k,
+        'submit_requests_bytes_eq_limit_minus_1': 500 * k,
+        'submit_production_limit_cases': 6 * k,
     }
 
 
@@ -181,11 +230,11 @@ def run(ctx):
         def __getattr__(self, name):  # any network attempt is a harness error
             raise RuntimeError(f'network use attempted: {name}')
 
-    def new_batch(batch_id=None):
+    def new_batch(batch_id=None, client=None):
         try:
-            return Batch(DummyClient(), batch_id)
+            return Batch(DummyClient() if client is None else client, batch_id)
         except Exception:
-            if batch_id is not None:
+            if batch_id is not None or client is not None:
                 raise
             return object.__new__(Batch)
 
@@ -293,6 +342,283 @@ def run(ctx):
                  nontrivial=len(bunches) >= 2)
         return bunches
 
+    # ---- the SUBMISSION clause: what Batch.submit() puts on the wire -------------------------------------------
+    # "splits ... into SUBMISSION bunches": the bunches of the property are the request bodies the client POSTs, not
+    # the intermediate list _create_bunches returns.  Between that list and the wire lie Batch._submit (0 / 1 / many
+    # bunches dispatch), _create_fast / _update_fast, _submit_job_group_bunches / _submit_job_bunches (which bunch is
+    # offered to which pass), _submit_job_groups / _submit_jobs (per-bunch filter by SpecType) and
+    # _submit_spec_bunch (payload assembly).  The real Batch.submit() is driven against a recording client (no
+    # network; every request is answered like the service would) and the oracle is applied to the recorded request
+    # bodies alone - it does not look at what _create_bunches returned:
+    #   * the job-group specs of all requests, concatenated in the order the requests were sent, are byte-identical to
+    #     the serialized job-group specs in order (job groups are sent one request after the other);
+    #   * the job specs of all requests are exactly the serialized job specs, nothing lost, duplicated or altered, and
+    #     every request carries a contiguous in-order run of them (job requests are sent concurrently, so the order in
+    #     which they ARRIVE is not the client's to decide and is not judged);
+    #   * "all job groups before all jobs": a request carrying jobs is sent only after every request carrying job
+    #     groups has been answered (one create-fast / update-fast request may carry both);
+    #   * every request: at least one spec, count <= max_bunch_size, sum of spec bytes < max_bunch_bytesize (a single
+    #     spec >= the limit alone in a request is not judged, as above), each spec on the endpoint / in the field of
+    #     its type, body byte-exact '[' spec ',' spec ... ']'.
+    #   * submit() refuses (AssertionError) only when a spec is >= max_bunch_bytesize; no other exception.
+    import asyncio
+    import random as _random
+
+    loads = getattr(aioclient.orjson, 'loads', None) or __import__('json').loads
+    wire_loop = asyncio.new_event_loop()
+
+    class FakeResponse:
+        def __init__(self, payload):
+            self._payload = payload
+
+        async def json(self):
+            return self._payload
+
+    class RecordingClient:
+        """Stands where BatchClient stands; records every request (path, raw body, logical send / answer instant)."""
+
+        billing_project = 'verif'
+
+        def __init__(self):
+            self.log = []
+            self.clock = 0
+            self.yrng = _random.Random(0)
+            self.batch_id = 1
+            self.update_id = 1
+            self.start_ids = (1, 1)
+
+        def __getattr__(self, name):  # anything but _post / _patch is a harness error
+            raise RuntimeError(f'network use attempted: {name}')
+
+        def _tick(self):
+            self.clock += 1
+            return self.clock
+
+        async def _answer(self, rec, payload):
+            for _ in range(self.yrng.choice([0, 1, 1, 2, 3, 5, 8])):  # requests in flight overlap and overtake
+                await asyncio.sleep(0)
+            rec['done'] = self._tick()
+            return FakeResponse(payload)
+
+        async def _post(self, path, data=None, json=None):
+            body = bytes(data._value) if data is not None else None
+            rec = {'path': path, 'body': body, 'json': json, 'sent': self._tick(), 'done': None}
+            self.log.append(rec)
+            gid, jid = self.start_ids
+            if path.endswith('/batches/create'):
+                payload = {'id': self.batch_id, 'update_id': self.update_id}
+            elif path.endswith('/updates/create'):
+                payload = {'update_id': self.update_id}
+            elif path.endswith('/batches/create-fast'):
+                payload = {'id': self.batch_id, 'start_job_group_id': 1, 'start_job_id': 1}
+            elif path.endswith('/update-fast'):
+                payload = {'start_job_group_id': gid, 'start_job_id': jid}
+            else:
+                payload = {}
+            return await self._answer(rec, payload)
+
+        async def _patch(self, path):
+            rec = {'path': path, 'body': None, 'json': None, 'sent': self._tick(), 'done': None}
+            self.log.append(rec)
+            gid, jid = self.start_ids
+            return await self._answer(rec, {'start_job_group_id': gid, 'start_job_id': jid})
+
+    def diff_class(got, exp, pos, other):
+        """Which of lost / duplicated / altered applies to the emitted spec bytes `got` against `exp` (a spec of the
+        other type is reported as wire/spec-on-wrong-endpoint, not as altered bytes)."""
+        out = []
+        have = {}
+        for x in got:
+            have[x] = have.get(x, 0) + 1
+        if any(x not in pos and x not in other for x in got):
+            out.append('bytes-altered')
+        if any(x not in have for x in exp):
+            out.append('lost-spec')
+        if any(n > 1 for x, n in have.items() if x in pos):
+            out.append('duplicated-spec')
+        return out
+
+    def submit_and_judge(b, rc, update_form, maxb, maxn, yseed, phase_note, own_progress=False):
+        """Drive the real Batch.submit() of `b` (whose client is the RecordingClient `rc`) and judge the recorded
+        requests.  Returns a dict describing what was observed (for the caller's workload counters) or None."""
+        expG = [dumps(s) for s in b._job_group_specs]
+        expJ = [dumps(s) for s in b._job_specs]
+        G, J = len(expG), len(expJ)
+        posG = {x: i for i, x in enumerate(expG)}
+        posJ = {x: i for i, x in enumerate(expJ)}
+        if len(posG) != G or len(posJ) != J or set(posG) & set(posJ):
+            ctx.count('submit_skipped_specs_not_distinct')  # the client numbers its specs: never observed
+            return None
+        oversized = any(len(x) >= maxb for x in expG + expJ)
+        rc.yrng = _random.Random(yseed)
+        rc.batch_id = b.id if update_form else 1 + yseed % 10**6
+        rc.update_id = 1 + yseed % 97
+        rc.start_ids = (2 + yseed % 50, 1 + yseed % 700) if update_form else (1, 1)
+        wit = {'phase': phase_note, 'update_form': update_form, 'n_groups': G, 'n_jobs': J,
+               'max_bunch_bytesize': maxb, 'max_bunch_size': maxn}
+        ctx.count('submit_cases')
+        try:
+            kw = {}
+            if own_progress:  # the caller's own progress bar (what hailtop.batch passes) instead of the default one
+                from hailtop.utils.rich_progress_bar import BatchProgressBar
+                kw['progress'] = BatchProgressBar(disable=True)
+                ctx.count('submit_cases_with_callers_progress_bar')
+            wire_loop.run_until_complete(
+                b.submit(max_bunch_bytesize=maxb, max_bunch_size=maxn, disable_progress_bar=True, **kw))
+        except AssertionError as e:
+            if oversized:
+                ctx.count('submit_refused_oversized')
+                if any(r['body'] is not None for r in rc.log):
+                    ctx.count('submit_refused_after_sending_specs')
+                return None
+            wit['requests'] = [r['path'] for r in rc.log][:40]
+            ctx.violation('wire/spurious-refusal',
+                          f'submit() raised AssertionError although every spec is smaller than the byte limit: {str(e)[:160]}', wit)
+            return None
+        except Exception as e:
+            wit['requests'] = [r['path'] for r in rc.log][:40]
+            ctx.violation('wire/submit-raises', f'submit() raised {e!r}', wit)
+            return None
+        reqs = []     # spec-carrying requests in send order
+        summary = []
+        for r in rc.log:
+            path = r['path']
+            if path.endswith('/job-groups/create'):
+                kind = 'G'
+            elif path.endswith('/jobs/create'):
+                kind = 'J'
+            elif path.endswith('/create-fast') or path.endswith('/update-fast'):
+                kind = 'F'
+            else:
+                ctx.count('submit_control_requests')
+                continue
+            ctx.count('submit_spec_requests')
+            try:
+                parsed = loads(r['body'])
+                if kind == 'F':
+                    eg, ej = parsed['job_groups'], parsed['bunch']
+                else:
+                    eg, ej = (parsed, []) if kind == 'G' else ([], parsed)
+                if not isinstance(eg, list) or not isinstance(ej, list):
+                    raise ValueError('spec container is not a list')
+                eg = [dumps(x) for x in eg]
+                ej = [dumps(x) for x in ej]
+            except Exception as e:
+                wit['request'] = {'path': path, 'body_head': (r['body'] or b'')[:200]}
+                ctx.violation('wire/malformed-body', f'request body is not the documented JSON shape: {e!r}', wit)
+                return None
+            body = r['body']
+            if kind == 'F':
+                exact = (b'"job_groups":[' + b','.join(eg) + b']') in body and (b'"bunch":[' + b','.join(ej) + b']') in body
+            else:
+                exact = body == b'[' + b','.join(eg + ej) + b']'
+            n, nb = len(eg) + len(ej), sum(len(x) for x in eg) + sum(len(x) for x in ej)
+            reqs.append({'kind': kind, 'g': eg, 'j': ej, 'sent': r['sent'], 'done': r['done'], 'n': n, 'nb': nb})
+            summary.append((kind, len(eg), len(ej), nb, r['sent'], r['done']))
+            w = dict(wit, request={'index': len(reqs) - 1, 'path': path, 'n_job_groups': len(eg), 'n_jobs': len(ej), 'bytes': nb})
+            if not exact:
+                ctx.violation('wire/bytes-altered', 'request body is not the byte-exact list of serialized specs', w)
+            if n == 0 and kind != 'F':
+                ctx.violation('wire/empty-request', 'a request without any spec was sent', w)
+            if n > maxn:
+                ctx.violation('wire/count-limit/exceeded', f'request carries {n} specs > max_bunch_size {maxn}', w)
+            if n == 1 and nb >= maxb:
+                ctx.count('submit_oversized_spec_shipped_alone')
+            elif nb > maxb:
+                ctx.violation('wire/byte-limit/exceeded', f'request carries {nb} spec bytes > max_bunch_bytesize {maxb}', w)
+            elif nb == maxb:
+                ctx.violation('wire/byte-limit/equal-to-limit',
+                              f'request carries exactly max_bunch_bytesize={maxb} spec bytes; the limit is exclusive', w)
+            if any(x in posJ for x in eg) or any(x in posG for x in ej):
+                ctx.violation('wire/spec-on-wrong-endpoint', 'a job spec was sent as a job group or a job-group spec as a job', w)
+            if n == maxn:
+                ctx.count('submit_requests_count_eq_limit')
+            if nb == maxb - 1:
+                ctx.count('submit_requests_bytes_eq_limit_minus_1')
+        wit['requests_kind_groups_jobs_bytes_sent_done'] = summary[:60]
+        # concatenation: job groups in send order; jobs as contiguous runs
+        got_g = [x for r in reqs for x in r['g']]
+        got_j = [x for r in reqs for x in r['j']]
+        for side, got, exp, pos, other in (('job-group', got_g, expG, posG, posJ), ('job', got_j, expJ, posJ, posG)):
+            kinds = diff_class(got, exp, pos, other)
+            if kinds:
+                sent = {pos[x] for x in got if x in pos}
+                w = dict(wit, side=side, n_sent=len(got), n_expected=len(exp),
+                         missing_positions=[i for i in range(len(exp)) if i not in sent][:60])
+                for k in kinds:
+                    ctx.violation('wire/' + k, f'{side} specs on the wire differ from the {side} specs of the batch: '
+                                               f'{len(got)} sent, {len(exp)} created, first missing positions {w["missing_positions"][:8]}', w)
+            elif side == 'job-group' and got != exp and all(x in pos for x in got):
+                w = dict(wit, side=side, sent_positions=[pos[x] for x in got][:200])
+                ctx.violation('wire/reordered', 'job-group specs were sent in another order than they were created', w)
+            elif side == 'job':
+                for r in reqs:
+                    ps = [pos[x] for x in r['j'] if x in pos]
+                    if ps and ps != list(range(ps[0], ps[0] + len(ps))):
+                        w = dict(wit, side=side, request_positions=ps[:200])
+                        ctx.violation('wire/reordered', 'a request does not carry a contiguous in-order run of the job specs', w)
+                        break
+            ctx.count('wire_checked_job_groups' if side == 'job-group' else 'wire_checked_jobs', len(exp))
+        # all job groups before all jobs
+        g_done = [r['done'] for r in reqs if r['g']]
+        for r in reqs:
+            if r['kind'] != 'F' and r['j'] and any(d is None or d > r['sent'] for d in g_done):
+                ctx.violation('wire/jobs-sent-before-job-groups',
+                              'a request carrying jobs was sent before every job-group request had been answered', wit)
+                break
+        jreqs = [r for r in reqs if r['kind'] == 'J']
+        obs = {
+            'fast': any(r['kind'] == 'F' for r in reqs),
+            'n_spec_requests': len(reqs),
+            'n_group_requests': sum(1 for r in reqs if r['kind'] == 'G'),
+            'n_job_requests': len(jreqs),
+        }
+        firsts = [posJ[r['j'][0]] for r in jreqs if r['j'] and r['j'][0] in posJ]
+        if firsts != sorted(firsts):
+            ctx.count('submit_cases_job_requests_sent_out_of_list_order')
+        if any(a['done'] is not None and a['done'] > c['sent'] for a, c in zip(jreqs, jreqs[1:])):
+            ctx.count('submit_cases_job_requests_in_flight_together')
+        dones = [r['done'] for r in jreqs if r['done'] is not None]
+        if dones != sorted(dones):
+            ctx.count('submit_cases_job_requests_answered_out_of_order')
+        return obs
+
+    def count_submit_class(obs, bunches, G, J, update_form):
+        """Workload classes of the submission clause, from the judged bunch list and the observed requests."""
+        if obs is None:
+            return
+        if obs['n_spec_requests'] == 0:
+            ctx.count('submit_zero_spec_cases')
+            return
+        if obs['fast']:
+            ctx.count('submit_fast_path_cases')
+            ctx.count('submit_fast_path_cases_update_form' if update_form else 'submit_fast_path_cases_new_batch')
+            if G and J:
+                ctx.count('submit_fast_path_cases_groups_and_jobs')
+            return
+        ctx.count('submit_slow_path_cases')
+        ctx.count('submit_slow_path_cases_update_form' if update_form else 'submit_slow_path_cases_new_batch')
+        if obs['n_job_requests'] > 6:
+            ctx.count('submit_slow_path_cases_more_job_requests_than_gather_slots')
+        if G and not J:
+            ctx.count('submit_slow_path_cases_groups_only')
+        elif J and not G:
+            ctx.count('submit_slow_path_cases_jobs_only')
+        elif bunches is not None:
+            mixed = [x for x in bunches if len({s.typ for s in x}) == 2]
+            if mixed:  # the greedy packer does not start a new bunch where job groups end and jobs begin
+                ctx.count('submit_slow_path_cases_mixed_boundary_bunch')
+                ctx.count('submit_slow_path_cases_mixed_boundary_bunch_' + ('update_form' if update_form else 'new_batch'))
+                if mixed[0] is bunches[0]:
+                    ctx.count('submit_slow_path_cases_mixed_bunch_is_first')
+                if mixed[0] is bunches[-1]:
+                    ctx.count('submit_slow_path_cases_mixed_bunch_is_last')
+                if mixed[0] is not bunches[0] and mixed[0] is not bunches[-1]:
+                    ctx.count('submit_slow_path_cases_mixed_bunch_in_the_middle')
+                ctx.count('submit_jobs_in_mixed_boundary_bunches', sum(1 for s in mixed[0] if s.typ == SpecType.JOB))
+            else:
+                ctx.count('submit_slow_path_cases_groups_end_on_bunch_boundary')
+
     # ---- phase sized -------------------------------------------------------------------------
     N = ctx.pick(40_000, 100_000)
     for i, rng in ctx.cases(N, 'sized'):
@@ -317,7 +643,8 @@ def run(ctx):
     # ---- phase api: specs made by the client's own create_job_group / create_job ------------------
     N2 = ctx.pick(400, 1_500)
     for i, rng in ctx.cases(N2, 'api'):
-        b = new_batch()
+        rc = RecordingClient()
+        b = new_batch(client=rc)
         if not hasattr(b, '_job_specs'):
             raise RuntimeError('cannot construct a Batch without network')
         n_g = rng.choice([0, 0, 1, 2, 3, rng.randint(0, 12)])
@@ -344,7 +671,11 @@ def run(ctx):
         maxb, maxn = choose_limits(rng, sizes, len(groups))
         ctx.count('api_cases')
         ctx.count('api_specs', len(sizes))
-        judge(groups, jobs, maxb, maxn, 'api')
+        bunches = judge(groups, jobs, maxb, maxn, 'api')
+        # the same batch through the real Batch.submit(): what reaches the wire (drawn last: the workload above is unchanged)
+        n_g, n_j = len(groups), len(jobs)
+        obs = submit_and_judge(b, rc, False, maxb, maxn, rng.getrandbits(32), 'api')
+        count_submit_class(obs, bunches, n_g, n_j, False)
 
 
     # ---- phase tree: NESTED job groups made by the client's own API, in every creation order -----------------
@@ -357,7 +688,8 @@ def run(ctx):
     N3 = ctx.pick(1_500, 4_000)
     for i, rng in ctx.cases(N3, 'tree'):
         update_form = rng.random() < 0.4
-        b = new_batch(rng.randint(1, 10**6) if update_form else None)
+        rc = RecordingClient()
+        b = new_batch(rng.randint(1, 10**6) if update_form else None, client=rc)
         big = rng.random() < 0.012  # enough specs to cross the production limits (1024 specs / 1 MiB)
         if big:
             n_g = rng.choice([1025, 1100, 1500, 2049, rng.randint(1025, 2300)])
@@ -497,6 +829,13 @@ def run(ctx):
                         extra_key=('tree', update_form, min(descents, 3), min(jdesc, 3), len(kinds)))
         if bunches is None:
             continue
+        # the same batch through the real Batch.submit(): what reaches the wire.  A shallow copy of the client's lists
+        # is judged below (submit() empties them); the draw comes last, the workload above is unchanged.
+        groups, jobs = list(groups), list(jobs)
+        obs = submit_and_judge(b, rc, update_form, maxb, maxn, rng.getrandbits(32), 'tree')
+        count_submit_class(obs, bunches, len(groups), len(jobs), update_form)
+        if big and obs is not None:
+            ctx.count('submit_production_limit_cases')
         if descents and sum(1 for x in bunches if any(s.typ == SpecType.JOB_GROUP for s in x)) >= 2:
             ctx.count('tree_not_monotone_groups_split_over_bunches')
         # "the original specifications in order", stated against the monitor's own creation log: the k-th emitted
@@ -670,6 +1009,68 @@ def run(ctx):
         if bunches is not None and disordered and len(bunches) >= 2:
             ctx.count('fields_disordered_split_over_bunches')
 
+    # ---- phase submit: the submission clause at the places where the bunch list and the wire can part ------------
+    # Batches built with the client's own API and sent with the real Batch.submit(): new batch and update of an
+    # existing batch; job groups only, jobs only, both; nothing at all; one bunch (create-fast / update-fast) and
+    # several (batches/create | updates/create, job-groups/create ..., jobs/create ... concurrently, commit).  With
+    # both kinds of spec and several bunches the greedy packer leaves ONE bunch that holds the last job groups and the
+    # first jobs unless the job groups end exactly where a limit closes a bunch: limits are drawn so that this mixed
+    # bunch is the first, a middle or the last bunch, has 1 .. many jobs, is closed by the count or by the byte limit,
+    # and so that the boundary is aligned (max_bunch_size divides the number of job groups) as the neighbouring case.
+    N5 = ctx.pick(3_000, 8_000)
+    for i, rng in ctx.cases(N5, 'submit'):
+        update_form = rng.random() < 0.45
+        rc = RecordingClient()
+        b = new_batch(rng.randint(1, 10**6) if update_form else None, client=rc)
+        n_g = rng.choice([0, 0, 1, 2, 3, 4, 5, 6, 8, 9, 12, 16, rng.randint(0, 30)])
+        n_j = rng.choice([0, 1, 2, 3, 5, 8, 9, 13, 20, 30, rng.randint(0, 45)])
+        if rng.random() < 0.03:
+            n_g = n_j = 0
+        pad_hi = rng.choice([0, 0, 10, 40, 120])
+        submitted_groups = [b.get_job_group(rng.randint(1, 60)) for _ in range(rng.choice([0, 1, 3]))] if update_form else []
+        submitted_jobs = [aioclient.Job.submitted_job(b, rng.randint(1, 500)) for _ in range(rng.choice([0, 2]))] if update_form else []
+        handles, made = [], []
+        todo = ['g'] * n_g + ['j'] * n_j
+        if rng.random() < 0.5:
+            rng.shuffle(todo)
+        for t in todo:
+            kw = {}
+            if pad_hi and rng.random() < 0.7:
+                kw['attributes'] = {'name': rng.choice(PADS) * rng.randint(0, pad_hi)}
+            if t == 'g':
+                if rng.random() < 0.2:
+                    kw['cancel_after_n_failures'] = rng.choice([1, 5])
+                r = rng.random()
+                parent = rng.choice(handles) if (handles and r < 0.35) else rng.choice(submitted_groups) if (submitted_groups and r < 0.5) else b
+                handles.append(parent.create_job_group(**kw))
+            else:
+                ps = []
+                if made and rng.random() < 0.4:
+                    ps += rng.sample(made, min(len(made), rng.choice([1, 1, 2])))
+                if submitted_jobs and rng.random() < 0.3:
+                    ps.append(rng.choice(submitted_jobs))
+                if ps:
+                    kw['parents'] = ps
+                owner = rng.choice([b] + handles + submitted_groups)
+                made.append(owner.create_job('ubuntu:22.04', ['echo', 'x' * rng.randint(0, 20)], **kw))
+        groups, jobs = list(b._job_group_specs), list(b._job_specs)
+        G, J = len(groups), len(jobs)
+        sizes = [len(dumps(s)) for s in groups] + [len(dumps(s)) for s in jobs]
+        maxb, maxn = choose_limits(rng, sizes, G)
+        mode = rng.random()
+        if mode < 0.40:    # only the count limit binds
+            maxb = 1024 * 1024
+            divisors = [d for d in range(1, G + 1) if G % d == 0] or [1]
+            maxn = rng.choice([1, 2, 3, 4, 5, max(1, G - 1), max(1, G), G + 1, G + 2, rng.choice(divisors), rng.choice(divisors),
+                               max(1, G // 2 + 1), max(1, (G + J) // 2), max(1, G + J - 1), rng.randint(1, 12)])
+        elif mode < 0.65:  # only the byte limit binds
+            maxn = 1024
+        ctx.count('submit_phase_cases')
+        bunches = judge(groups, jobs, maxb, maxn, 'submit', extra_key=('submit', update_form))
+        own_progress = rng.random() < 0.15
+        obs = submit_and_judge(b, rc, update_form, maxb, maxn, rng.getrandbits(32), 'submit', own_progress=own_progress)
+        count_submit_class(obs, bunches, G, J, update_form)
+
 
 # ---- validation record ---------------------------------------------------------------------------------
 # Unchanged tree: quick and thorough, seeds 0..4: all HELD (exit 0).
@@ -696,3 +1097,19 @@ def run(ctx):
 #   own 9     Batch._create_job_group keeps _job_group_specs sorted by parent id (other code site: the client's own
 #             list is already permuted, so the concat oracle agrees with it)      caught  creation-order/job-groups only
 #   own 10    job-group specs de-duplicated by job_group_id                        caught  concat/lost-spec (+ reordered)
+#
+# Submission clause (real Batch.submit() against a recording client; added after seeded/C19-agent8 was missed: the
+# monitor only looked at the list _create_bunches returns, nothing between that list and the wire was executed).
+# Unchanged tree: quick seeds 0..4, thorough seeds 0..2: HELD.  Breaks, scratch worktree, quick tier, seed 0:
+#   seeded C19-agent8  _submit_job_bunches offers only bunches with bunch[0].typ == JOB to the job pass: the jobs of the
+#                      mixed boundary bunch are never sent                                caught  wire/lost-spec
+#   own 11    _submit_job_group_bunches stops at the first bunch with bunch[-1].typ != JOB_GROUP (groups of the mixed
+#             bunch never sent)                                                           caught  wire/lost-spec
+#   own 12    _submit_spec_bunch payload loop stops one spec early                        caught  wire/lost-spec
+#   own 13    update form: job-group pass and job pass gathered concurrently              caught  wire/jobs-sent-before-job-groups
+#   own 14    update-fast also taken for 2 bunches when the second holds one spec         caught  wire/lost-spec
+#   own 15    _create_fast sorts the job-group spec bytes                                 caught  wire/reordered
+#   own 16    _submit_job_groups sends the whole bunch when it starts with a job group    caught  wire/spec-on-wrong-endpoint
+#   own 17    _submit_job_bunches offers the 8th bunch twice                              caught  wire/duplicated-spec
+#   seeded C19-agent2 / -agent4 / -agent6 are now also seen on the wire (wire/count-limit/exceeded, wire/reordered,
+#   wire/byte-limit/*) next to their _create_bunches keys.
